@@ -254,6 +254,65 @@ pub fn translate_case(
     cl
 }
 
+/// Two axis-parallel rectangles with decimal (non-dyadic) coordinates whose bounding boxes touch exactly along
+/// a vertical (axis 0) or horizontal (axis 1) line: A = [t0,t1] x [0,1], B = [t1,t2] x [lo,hi] (transposed for
+/// axis 1). The obvious combinations: intersection empty, difference = A, union and xor = one merged polygon
+/// (no boundary segment shared by two rings), area(A)+area(B).
+pub fn decimal_touch_case(i0: usize, i1: usize, i2: usize, yk: usize, axis: u8, loc: &mut Local) -> Vec<String> {
+    let t = |i: usize| i as f64 / 10.0;
+    let (lo, hi) = [(0.0, 1.0), (0.3, 0.7), (-0.4, 0.6), (0.5, 1.7)][yk];
+    let tr = |p: P| if axis == 0 { p } else { (p.1, p.0) };
+    let rect = |x0: f64, x1: f64, y0: f64, y1: f64| {
+        let mut pts = vec![tr((x0, y0)), tr((x1, y0)), tr((x1, y1)), tr((x0, y1))];
+        if axis == 1 {
+            pts.reverse(); // keep the ring counter-clockwise after transposition
+        }
+        geo_types::MultiPolygon(vec![poly_from(&pts, &[])])
+    };
+    let a = rect(t(i0), t(i1), 0.0, 1.0);
+    let b = rect(t(i1), t(i2), lo, hi);
+    let (aa, ab) = (mp_area(&a), mp_area(&b));
+    let mut cl = vec![];
+    for op in OPS {
+        let r = match res_of(&a, &b, op, loc) {
+            Some(r) => r,
+            None => {
+                cl.push(format!("C06 panic {}", op_name(op)));
+                continue;
+            }
+        };
+        let edges = mp_edges(&r);
+        let mut shared = false;
+        for i in 0..edges.len() {
+            for j in i + 1..edges.len() {
+                if collinear_overlap(edges[i], edges[j]) {
+                    shared = true;
+                }
+            }
+        }
+        let area = mp_area(&r);
+        let close = |x: f64, y: f64| (x - y).abs() <= 1e-12;
+        match op {
+            Operation::Intersection => {
+                if !r.0.is_empty() {
+                    cl.push(format!("C06 touching-decimal-boxes-intersection-not-empty {}", op_name(op)));
+                }
+            }
+            Operation::Difference => {
+                if r.0.len() != 1 || !close(area, aa) || shared {
+                    cl.push(format!("C06 touching-decimal-boxes-difference!=A {}", op_name(op)));
+                }
+            }
+            _ => {
+                if r.0.len() != 1 || shared || !close(area, aa + ab) {
+                    cl.push(format!("C06 touching-decimal-boxes-not-merged {}", op_name(op)));
+                }
+            }
+        }
+    }
+    cl
+}
+
 fn viol(loc: &mut Local, cl: Vec<String>, keybase: String, case: Value) {
     for c in cl {
         loc.violation(&c, format!("{keybase}:{}", clause_op(&c)), case.clone());
@@ -361,6 +420,10 @@ pub fn replay(case: &Value, verbose: bool) -> Vec<String> {
             &mut loc,
         );
     }
+    if kind == "decimal-touch" {
+        let g = |k: &str| case[k].as_u64().unwrap() as usize;
+        return decimal_touch_case(g("i0"), g("i1"), g("i2"), g("yk"), g("axis") as u8, &mut loc);
+    }
     let fam = family_cached(case["family"].as_str().unwrap());
     let enc = enc_from(case["enc"].as_str().unwrap_or("M"));
     let a = case["a"].as_u64().unwrap() as u32;
@@ -405,6 +468,28 @@ pub fn run(tier: &str) -> i32 {
             let fam = Family::new(name);
             sweep_family(&st, &fam, &[Enc::M], false);
         }
+    }
+    // touching boxes with decimal coordinates (sums and differences of the coordinates round)
+    {
+        let mut n = 0u64;
+        let mut loc = Local::default();
+        for i0 in 0..16usize {
+            for i1 in i0 + 1..16 {
+                for i2 in i1 + 1..16 {
+                    for yk in 0..4usize {
+                        for axis in 0..2u8 {
+                            n += 1;
+                            loc.states += 1;
+                            loc.nontrivial += 1;
+                            let cl = decimal_touch_case(i0, i1, i2, yk, axis, &mut loc);
+                            viol(&mut loc, cl, format!("decimal-touch:{i0}:{i1}:{i2}:{yk}:{axis}"), json!({"prop": "C06", "kind": "decimal-touch", "i0": i0, "i1": i1, "i2": i2, "yk": yk, "axis": axis}));
+                        }
+                    }
+                }
+            }
+        }
+        st.merge(&loc);
+        st.family(&format!("touching rectangles with decimal coordinates: {n} configurations (all t0 < t1 < t2 in {{0.0, 0.1, ..., 1.5}}, 4 vertical placements, both axes) x 4 operations"));
     }
     // float table: commutativity as regions
     let spec = p_spec(9, st.seed, 1.0, false);
